@@ -156,7 +156,7 @@ CHECKS = {
     'C08': dict(
         gens=[],
         props='ZanVerif.Props.C08',
-        protos=[dict(name='datacore', quick_seeds=2, thorough_seeds=2)],
+        protos=[dict(name='datacore', quick_seeds=2, thorough_seeds=2, classes='panic')],
         rule=DATACORE_RULE,
         trusted=DATACORE_TRUST,
         partial=['everything except hget/hset/hdel', 'duplicate fields inside one command were a genuine defect (fixed) and are outside the model'],
